@@ -13,6 +13,11 @@ NA_FIXED = {
 }
 
 CLAIMS = {
+    'C17': dict(
+        technique="static effect analysis over the resolved call graph (CHA over all in-crate engines): reachability of may-allocate callees from round / reset entry points, dominance of the grow guard, data-flow of the work object, field-type check of result types",
+        text="Decides for every path: per-round entry points (all rates, wrappers, accessors, iterators, result Drop) reach no allocating callee; reset/new reach exactly Vec::resize on the shard store and FixedBitSet::grow behind `len < needed`; constructors and the rate switch keep the supplied working space; results borrow instead of copying. A counting allocator samples histories; this rule covers every call path.",
+        note="Trusted: std/fixedbitset contracts (Vec::resize within capacity, grow), the allowlist of non-allocating alloc functions; user-written engines are outside. LazyLock table initialisation is the stated one-time exception.",
+        design="§4 C17"),
     'C10': dict(
         technique="static must-pass-through (edge dominance) + value-flow analysis over the MIR of encode()/decode(): Ok exits dominated by the streaming calls' Ok edges, caller iterators consumed only by next(), every yielded item reaches the matching add call under Option-test pruning",
         text="Decides that the one-shot functions ARE the streaming sequence on every path: no Ok exit bypasses ReedSolomon{En,De}coder::new/encode/decode, every item of the caller's iterators reaches the matching add_*_shard before any Ok exit, the size is inferred from a first item, the returned collection is filled only from the streaming result. Found defect F4 on the pinned tree (repaired by fix: dbbf1ef).",
